@@ -38,6 +38,17 @@ def _meta(store, which):
 
 
 def body_crash(c0, c1, target, body, k, om, nm):
+    # the crash range 1..kmax must cover the whole operation: a dry run without a crash counts its mutations first
+    # (otherwise an operation with more than kmax mutations would crash for every k and its tail never be visited)
+    dry = _crash_run(c0, c1, target, body, None)
+    if isinstance(dry, tuple) and dry[1] in ("pre-invalid", "vdir-other-ext"):
+        return dry
+    if Wm.CUR.muts >= ctx.b.kmax:
+        return (False, "kmax-too-small")
+    return _crash_run(c0, c1, target, body, k)
+
+
+def _crash_run(c0, c1, target, body, k):
     old_meta, new_meta = "old", "new"  # concrete: the values are irrelevant to crash atomicity
     kind, op, mode = ctx.PART
     n = 2
@@ -105,7 +116,7 @@ def body_crash(c0, c1, target, body, k, om, nm):
         ok = ok and not mstore.dangling(_store.PATH)
     if not crashed:
         # the operation returned (acknowledged): the post-state must be there; the crash range covered it
-        ok = ok and outcome == want and is_new and total < ctx.b.kmax
+        ok = ok and outcome == want and is_new
         cls = OPN[op] + ":completed"
     else:
         ok = ok and (is_old or is_new)
